@@ -26,11 +26,11 @@ import FqModel.Reasm
        assumption (`flushDiscipline`, in-order delivery of sent bytes) and the harness must have seen the traced
        Decoder end in the state fq reported (T=same);
     5. known findings: the predicate is evaluated twice — in the reference world (every captured segment counts) and
-       in the world of the fq model (segments lost to fq's completion test `acceptReassembled` or rejected by
+       in the world of the fq model (segments rejected by
        `Accept` = TCPSimpleFSM.CheckState, `fsmCheck`, never reach the assembler).  A PROPFAIL is reported as KNOWN
        only if it is explained exactly by
-         `defrag-length` fq drops a reassembled datagram whose payload length equals the total length of the fragment
-                         that completed it: the model predicts the drop and fq's report satisfies the predicate on the rest;
+         (`defrag-length` — a reassembled datagram dropped by fq's completion test — was excused until fix
+                         8dc84a5a; `acceptReassembled` now models the fixed test and a drop is a PROPFAIL)
          `fsm-reorder`   the transliterated CheckState rejects >= 1 segment carrying data/SYN/FIN and fq's report
                          satisfies the predicate on the remaining segments;
          `seq-wrap`      every failure lies in a direction whose sequence numbers cross 2^32 and whose data segments do
@@ -246,7 +246,7 @@ def replay (k : Case) : Replay := Id.run do
       | none => r := { r with groups := (key, grp) :: r.groups.filter (fun g => g.1 != key) }
       | some payload =>
         let lastLen := 20 + body.length
-        let acc := acceptReassembled payload.length lastLen
+        let acc := acceptReassembled true true     -- a fragment, and it completed the datagram
         r := { r with groups := r.groups.filter (fun g => g.1 != key),
                       done := r.done.push ⟨src, dst, id, payload, lastLen, acc && served⟩ }
         match tcpOf k.conns src dst payload with
@@ -547,14 +547,11 @@ def stepCap (k : Case) (o : Obs) : String := Id.run do
     match dv with
     | [] => return "OK"
     | w :: _ => return s!"DIVERGE model={w}"
-  -- known finding 1: the failures disappear when the datagrams fq's completion test rejects are taken out
-  if !dropped.isEmpty || fsmRejected > 0 then
+  -- known finding fsm-reorder: the failures disappear when the segments `Accept` rejects are taken out.
+  -- (a datagram the model of packet() does not accept is NOT excused: `defrag-length` is fixed)
+  if fsmRejected > 0 && dropped.isEmpty then
     if fqF.propfail.isEmpty then
-      match dropped with
-      | d :: _ =>
-        return s!"KNOWN defrag-length reassembled datagram id={d.id} payload length {d.payload.length} = total length of its last fragment: dropped ({refF.propfail.head!}){suffix}"
-      | [] =>
-        return s!"KNOWN fsm-reorder {fsmRejected} segment(s) with data/SYN/FIN rejected by Accept (TCPSimpleFSM) ({refF.propfail.head!}){suffix}"
+      return s!"KNOWN fsm-reorder {fsmRejected} segment(s) with data/SYN/FIN rejected by Accept (TCPSimpleFSM) ({refF.propfail.head!}){suffix}"
     else if fqF.wrapOnly then
       return s!"KNOWN seq-wrap {fqF.propfail.head!}{suffix}"
   if refF.wrapOnly then
